@@ -192,3 +192,58 @@ pub fn oom<F: BoolExt>(args: &Args) {
     out.finish();
     write_summary(&dir, &format!("oom-{}", F::KIND), &out, json!({"rows":cases,"nontrivial":failures,"retries_required_ok":retried}));
 }
+
+
+/// C14, calls whose API cannot report an error (set_var_order, add_vars): run
+/// under memory pressure in a process of their own (the library may abort).
+pub fn oomabort<F: BoolExt>(args: &Args) {
+    let dir = args.get("out", "/verif/out/tmp");
+    let seed = args.num("seed", 1);
+    let scen = args.get("scen", "reorder");
+    let slack = args.num("slack", 0) as usize;
+    let mut out = TraceOut::new(&dir, &format!("oomabort-{}-{}-{}", F::KIND, scen, slack), 4000);
+    let n = 6u32;
+    let build = |s: &mut Session<F>| -> Option<()> {
+        let mut rng = Rng::new(seed);
+        for v in 0..n {
+            s.var(v)?;
+        }
+        for _ in 0..10 {
+            let live = s.live();
+            let a = live[rng.below(live.len())];
+            let b = live[rng.below(live.len())];
+            s.bin(BIN_OPS[rng.below(8)], a, b)?;
+        }
+        Some(())
+    };
+    // measure the number of nodes the set-up needs
+    let need = {
+        let mut sink = TraceOut::new(&format!("{dir}/measure"), "m", usize::MAX);
+        let mut s: Session<F> = Session::new(&mut sink, 1 << 14, 64, 1);
+        s.add_vars(n);
+        build(&mut s);
+        s.mref.with_manager_shared(|m| m.num_inner_nodes())
+    };
+    let _ = std::fs::remove_dir_all(format!("{dir}/measure"));
+    let mut s: Session<F> = Session::new_tagged(&mut out, need + slack, 64, 1, "oom");
+    s.add_vars(n);
+    if build(&mut s).is_none() {
+        return;
+    }
+    s.snap();
+    match scen.as_str() {
+        "reorder" => {
+            if F::REORDER_LIVE_OK {
+                let p: Vec<u32> = (0..n).rev().collect();
+                s.reorder(&p);
+            }
+        }
+        _ => s.add_vars(2),
+    }
+    if !s.dead {
+        s.snap();
+        s.obs();
+    }
+    out.finish();
+    write_summary(&dir, &format!("oomabort-{}", F::KIND), &out, json!({"rows":1,"nontrivial":1}));
+}
